@@ -5,10 +5,15 @@ V = "/verif"
 props = [json.loads(l)["id"] for l in open(V + "/properties.jsonl")]
 
 E2 = "SMT-based bounded symbolic execution of the repository's Go code (go/ssa lowered on every run, z3), native replay of every counterexample"
+E3 = "partial-order SMT encoding (one integer timestamp per event, Go channel/WaitGroup rules) over events extracted by symbolic execution of the real goroutine bodies (go/ssa, regenerated per run); schedule counterexamples forced natively"
 E1 = "SMT-based symbolic execution of the compiled x86/AVX2/AVX-512 kernels lifted from the test binary on every run (z3), native replay"
 TRUST = "trusted: z3, go/ssa (x/tools v0.29.0) and the executors (each sat is replayed natively; stubs/assumptions listed in the evidence)"
 
 claimed = {
+ "C07": ("E3", "§5.7, §10.6", "the asynchronous two-stage pipeline as a partial-order SMT problem over events extracted from the real SSA of findStructuralIndices (producer) and of the consumer closure with the real updateChar/peekSize: (a) no ring slot is refilled before the consumer's last read of its previous occupant, (b) k-th received = k-th sent, (c) every execution terminates for success, stage-1 failure at any buffer, stage-2 failure at any index (before/after the terminator), under every schedule; G2: for every message length up to the async threshold the synchronous path's buffers + terminator fit the channel",
+          "<= 20 (quick) / 40 (thorough) index buffers; constants (16 slots, capacity, threshold, limit) read from the source on every run; stage-1 kernel and unifiedMachine enter as contracts (arbitrary lengths / may fail after any updateChar call; side conditions on the SSA checked per run); schedule counterexamples are forced natively through an instrumented overlay; trusted: z3, go/ssa, the encoders"),
+ "C09": ("E3", "§5.9, §10.6", "ParseNDStream from its real closures (reader, forwarder, per-chunk worker) over an abstract reader (symbolic bytes, every fragmentation, fault at any offset): chunks partition the consumed prefix, every chunk ends after an LF or at EOF/fault, no blank-only chunk reaches the parser on a well-formed stream, results are forwarded in queue order for every completion order of the workers then the EOF/reader error then close, termination, no pooled buffer reused while referenced",
+          "streams <= 8 bytes with tmpSize scaled 10 MiB -> 4 (quick) / larger in thorough, <= 4 chunks for the ordering lemmas, GOMAXPROCS 1..16; bufio.Reader, sync.Pool and parseMessage enter as contracts (this is the weakest claim of the set: ~100 lines of real code inside four contracts); trusted: z3, go/ssa, the encoders"),
  "C01": ("E1+E2", "§5.1, §10.4", "stage 1 = REF-SCAN on a symbolic 64-byte block with arbitrary carry for both kernel families and the slice drivers (E1: A1-A7), parseNumber = RFC 8259 number DFA (P2), stage 2 = general reference parser on every layout of <= 3 structural tokens with symbolic bytes plus valid skeletons up to 11 tokens with each token free in turn (P3), the whole synchronous parseMessage incl. the Go stage-1 driver, multi-block messages and index-buffer hand-over (U1)",
           "token/byte bounds as in evidence; escapes inside strings are decided by the E1 string lemmas (C04) and excluded from P3/U1; stage-1 kernel, number parser and string decoder enter P3/U1 as the contracts their own lemmas establish; composition over blocks by induction (argued); " + TRUST),
  "C05": ("E1+E2", "§5.5", "the memory-safety obligations of every assembly lemma (loads/stores inside caller-provided extents, index-buffer store bound), and the panic / bounds / unwinding / blocks-forever obligations of parseNumber, unifiedMachine and the whole synchronous parseMessage (channel empty on every exit) on all inputs within the bounds",
@@ -61,15 +66,16 @@ for p in props:
             "property_id": p, "quick_cmd": "./check %s --tier quick" % p, "thorough_cmd": "./check %s --tier thorough" % p,
             "evidence_file": "%s/evidence/%s.json" % (V, p), "replay_cmd_template": "cat {path}", "engine": eng,
             "level_claimed": {"category": "model_checking", "text": text, "design_ref": ref},
-            "level_note": note, "technique": E1 if eng == "E1" else (E2 if eng == "E2" else E1 + "; " + E2)})
+            "level_note": note, "technique": {"E1": E1, "E2": E2, "E3": E3}.get(eng, E1 + "; " + E2)})
 m = {
  "version": 1,
- "setup_cmd": "cd /verif && GOFLAGS=-mod=mod GOPROXY=off GOSUMDB=off GOTOOLCHAIN=local go build -o bin/ssa2vir ./cmd/ssa2vir",
+ "setup_cmd": "cd /verif && GOFLAGS=-mod=mod GOPROXY=off GOSUMDB=off GOTOOLCHAIN=local go build -o bin/ssa2vir ./cmd/ssa2vir && GOFLAGS=-mod=mod GOPROXY=off GOSUMDB=off GOTOOLCHAIN=local go build -o bin/e3instr ./cmd/e3instr",
  "hooks": {"guard": "verif", "enable": "no source hooks in /repo: harness files under /verif/harness are injected with go/packages overlays (encoding) and `go test -overlay` (replay)",
            "baseline_off_cmd": "cd /repo && go test -vet=off -count=1 -timeout 25m ./...", "source_commits": [], "add_only": True},
  "engines": [
-   {"name": "E2", "path": "/verif/vsym/e2", "serves_properties": sorted(p for p in claimed if claimed[p][0] == "E2"), "kind_free_text": "Go-SSA symbolic executor (python + z3) over a JSON IR lowered by cmd/ssa2vir from /repo's working tree"},
-   {"name": "E1", "path": "/verif/vsym/e1", "serves_properties": sorted(p for p in claimed if claimed[p][0] == "E1"), "kind_free_text": "x86-64/AVX2/AVX-512 symbolic executor over the instructions objdump'ed from the freshly built test binary"}],
+   {"name": "E2", "path": "/verif/vsym/e2", "serves_properties": sorted(p for p in claimed if "E2" in claimed[p][0]), "kind_free_text": "Go-SSA symbolic executor (python + z3) over a JSON IR lowered by cmd/ssa2vir from /repo's working tree"},
+   {"name": "E3", "path": "/verif/vsym/e3", "serves_properties": sorted(p for p in claimed if claimed[p][0] == "E3"), "kind_free_text": "event extraction from the real SSA + partial-order SMT encoding of schedules (python + z3), cmd/e3instr for forced-schedule native replay"},
+   {"name": "E1", "path": "/verif/vsym/e1", "serves_properties": sorted(p for p in claimed if "E1" in claimed[p][0]), "kind_free_text": "x86-64/AVX2/AVX-512 symbolic executor over the instructions objdump'ed from the freshly built test binary"}],
  "checks": checks,
  "not_applicable": [{"property_id": p, "reason": na.get(p, na_default)} for p in props if p not in [c["property_id"] for c in checks]],
  "notes": "see DESIGN.md; known findings and fixed defects: known_findings.jsonl; seeded mutations: seeded/",
